@@ -37,11 +37,13 @@ SENT_BITS = np.array([SENT]).view(np.uint64)[0]
 #   vel    : 1e-12  Jacobian products + rigid transport, momenta (worst observed 2.5e-15)
 #   energy : 1e-12  (worst observed 3.4e-15)
 #   limit  : 1e-13 / 1e-12 (worst observed 2e-16)
-#   fd     : 2e-6   accelerations, force, torque: d/dt[J(q) qvel] by a central difference along the flow with h = 1e-5:
-#                   truncation ~ h^2 |d3x/dt3| ~ 1e-10 |w|^3, round-off ~ eps |v| / h ~ 2e-11 |v|; states are restricted to
-#                   |qvel| <= 50, |qacc| <= 1e6 ('violent-state' discards).  Worst observed 3e-8.
-#   geom   : 1e-5   collision sensors (narrow-phase convex tolerance opt.ccd_tolerance = 1e-6; worst observed 3e-13 on
-#                   closed-form pairs)
+#   fd     : 2e-7   accelerations, force, torque: d/dt[J(q) qvel] by a central difference along the flow with
+#                   h = 1e-5 / (1 + max body angular velocity): relative truncation (h w)^2/6 and round-off eps/(h w) are
+#                   both ~2e-11; states are restricted to |qvel| <= 50, |qacc| <= 1e6 ('violent-state' discards).
+#                   Worst observed 1.7e-9 (a 7-body chain spinning at 28 rad/s).
+#   geom   : 1e-5   collision sensors, closed-form pairs (opt.ccd_tolerance = 1e-6; worst observed 2e-7);
+#            1e-4   pairs without a closed form (reference = the engine's convex solver called with another distmax: its
+#                   GJK/EPA result on curved shapes moves by ~1e-5 with distmax; worst observed 1.1e-5)
 #   ray    : 1e-9   rangefinder (worst observed 6e-16)
 # Mutants (mutants/C28) are all caught with these constants.
 
@@ -774,6 +776,8 @@ def main(ck):
   concentric_probe(ck, lib, ck.budget(60, 1000))
   ck.extra['coverage_by_type_object_reference_level'] = dict(sorted(stats['cov'].items()))
   ck.extra['worst_error_over_tolerance_by_class'] = stats['worst']
+  ck.extra['worst_case_by_class'] = {k: {a: b for a, b in v.items() if a != 'xml'}
+                                     for k, v in stats.get('worst_case', {}).items()}
   ck.extra['deep_and_nefc_by_type'] = dict(stats['deep'])
   ck.extra['nontrivial_by_type'] = dict(stats['nt'])
   ck.extra['cases_with_nefc>0'] = stats['nefc>0']
